@@ -19,7 +19,8 @@ func zzDur(name string) time.Duration {
 
 func zzTime(name string) int64 {
 	t := vI64(name)
-	vAssume(t >= 0)
+	// clock readings are non-negative and below MaxInt64 (the cache's own "unreachable" sentinel)
+	vAssume(t >= 0 && t < int64(^uint64(0)>>1))
 	return t
 }
 
